@@ -9,7 +9,7 @@ ENGINE = 'grid'
 TECHNIQUE = 'bounded exhaustive evaluation of a generated problem grid (series family x parameters x index range x method x precision) on the real summation code against closed forms'
 RULE = ('finite nsum/nprod over ALL ranges [a,b] with -3 <= a <= b <= 6 vs exact Fractions; infinite series with closed forms: geometric (ratios +-1/2, 1/3, '
         '-2/3, 9/10), 1/k^s (s=2,3,4, zeta values), alternating (eta values, log 2, pi/4), hypergeometric-type (e, cosh 1, Bessel-type), exp(-k); half- and '
-        'doubly-infinite ranges; 2-D and 3-D sums vs the product/iterated closed form; every nsum method (default, richardson, shanks, levin, alternating, '
+        'doubly-infinite ranges; 2-D and 3-D sums vs the product/iterated closed form, incl. ALL 9+27 patterns of range kinds (finite, [0,inf), (-inf,0]) per argument position; every nsum method (default, richardson, shanks, levin, alternating, '
         'euler-maclaurin, direct) where applicable; nprod with closed forms; sumem, sumap, limit (incl. direction), richardson, shanks, levin, cohen_alt on '
         'explicit sequences; precisions {30,53,100,300}.  Tolerance 2^(10-p) relative.  non-trivial = every problem; distinct by construction')
 ASSUMPTIONS = ['closed forms with pi/zeta/log/exp evaluated by the library at 3x precision']
@@ -139,6 +139,38 @@ def t_multi(task):
         g = mp.nsum(lambda i, j, k: i + 2 * j + 3 * k, [0, 2], [1, 3], [2, 4])
         ex = sum(i + 2 * j + 3 * k for i in range(0, 3) for j in range(1, 4) for k in range(2, 5))
         close(acc, mp, '3d-finite-asymmetric', g, lambda: mp.mpf(ex), p, 'multi-sum')
+        # ALL patterns of range kinds per position (finite / [0,inf) / (-inf,0]) in 2 and 3 dimensions; the summand is a product of
+        # position-specific factors, so the exact value is a product of one-dimensional sums and any mix-up of positions is visible
+        import itertools
+        ratios = [Fraction(1, 2), Fraction(1, 3), Fraction(1, 5)]
+        for dim in (2, 3):
+            for pat in itertools.product('FPN', repeat=dim):
+                if dim == 3 and pat.count('F') == 0 and p > 53:
+                    continue
+                mp.prec = p
+                ranges, ex = [], Fraction(1)
+                for i, kind in enumerate(pat):
+                    if kind == 'F':
+                        ranges.append([1, 3]); ex *= sum(Fraction((x + i + 1) ** 2) for x in range(1, 4))
+                    elif kind == 'P':
+                        ranges.append([0, inf]); ex *= 1 / (1 - ratios[i])
+                    else:
+                        ranges.append([-inf, 0]); ex *= 1 / (1 - ratios[i])
+                def f(*xs, pat=pat):
+                    v = mp.mpf(1)
+                    for i, (kind, x) in enumerate(zip(pat, xs)):
+                        if kind == 'F':
+                            v *= (x + i + 1) ** 2
+                        elif kind == 'P':
+                            v *= F2m(mp, ratios[i]) ** x
+                        else:
+                            v *= F2m(mp, ratios[i]) ** (-x)
+                    return v
+                try:
+                    g = core.with_timeout(120, mp.nsum, f, *ranges)
+                except core.TimeoutHit:
+                    acc.count('timeouts'); continue
+                close(acc, mp, 'pattern-%s' % ''.join(pat), g, lambda ex=ex: F2m(mp, ex), p, 'multi-sum')
         acc.sample(['nsum 3-D', p])
     finally:
         mp.prec = 53
